@@ -42,26 +42,29 @@ def _changes(seq):
 def _tier(ctx):
     if ctx.tier == "quick":
         return dict(
-            update={"Pool": 3, "MaxInit": 2, "Warmups": "{3}", "InitPowers": "{1, 2, 10}",
-                    "ChangePowers": "{0, 1, 10}", "MaxChanges": 2, "FirstBatches": 1},
-            rotate={"Pool": 3, "MaxInit": 3, "Warmups": "{0, 2}", "InitPowers": "{1, 2, 5}", "FirstBatches": 1,
+            update=[{"Pool": 3, "MaxInit": 2, "Warmups": "{3}", "InitPowers": "{1, 10}",
+                     "ChangePowers": "{0, 1, 10}", "MaxChanges": 3, "FirstBatches": 1}],
+            rotate={"Pool": 3, "MaxInit": 2, "Warmups": "{0, 2}", "InitPowers": "{1, 2, 5}", "FirstBatches": 1,
                     "MaxTimes": 5},
             hist={"MaxSteps": 2}, hist_graph={"MaxSteps": 2, "MaxChanges": 1}, hist_sim=0,
             store=[{"Scenario": 1, "Checkpoint": 4, "InitialHeight": 2, "MaxBlocks": 4},
-                   {"Scenario": 2, "Checkpoint": 3, "InitialHeight": 1, "MaxBlocks": 3},
+                   {"Scenario": 2, "Checkpoint": 3, "InitialHeight": 1, "MaxBlocks": 2},
                    {"Scenario": 3, "Checkpoint": 5, "InitialHeight": 4, "MaxBlocks": 3}],
-            store_sim=0, random_types=150, extreme=150, random_store=60)
+            store_sim=0, random_types=100, extreme=150, random_store=40)
     return dict(
-        update={"Pool": 4, "MaxInit": 3, "Warmups": "{0, 1, 4}", "InitPowers": "{1, 2, 10}",
-                "ChangePowers": "{0, 1, 3, 10}", "MaxChanges": 2, "FirstBatches": 1},
-        rotate={"Pool": 4, "MaxInit": 3, "Warmups": "{0, 1, 4}", "InitPowers": "{1, 2, 5, 10}", "FirstBatches": 1,
+        update=[{"Pool": 4, "MaxInit": 3, "Warmups": "{4}", "InitPowers": "{1, 2, 10}",
+                 "ChangePowers": "{0, 1, 10}", "MaxChanges": 2, "FirstBatches": 1},
+                {"Pool": 3, "MaxInit": 3, "Warmups": "{0, 3}", "InitPowers": "{1, 2, 10}",
+                 "ChangePowers": "{0, 1, 10}", "MaxChanges": 3, "FirstBatches": 1}],
+        rotate={"Pool": 4, "MaxInit": 3, "Warmups": "{0, 4}", "InitPowers": "{1, 2, 5, 10}", "FirstBatches": 1,
                 "MaxTimes": 7},
         hist={"MaxSteps": 3}, hist_graph={"MaxSteps": 2, "MaxChanges": 2}, hist_sim=400,
-        store=[{"Scenario": 1, "Checkpoint": 4, "InitialHeight": 2, "MaxBlocks": 6},
-               {"Scenario": 2, "Checkpoint": 3, "InitialHeight": 1, "MaxBlocks": 5},
-               {"Scenario": 3, "Checkpoint": 5, "InitialHeight": 4, "MaxBlocks": 5},
-               {"Scenario": 2, "Checkpoint": 1000, "InitialHeight": 1, "MaxBlocks": 5}],
-        store_sim=300, random_types=3000, extreme=3000, random_store=1500)
+        # MaxBlocks: exhaustive run (VIEW); the act-augmented graph that is replayed is cut at GraphBlocks
+        store=[{"Scenario": 1, "Checkpoint": 4, "InitialHeight": 2, "MaxBlocks": 6, "GraphBlocks": 5},
+               {"Scenario": 2, "Checkpoint": 3, "InitialHeight": 1, "MaxBlocks": 5, "GraphBlocks": 3},
+               {"Scenario": 3, "Checkpoint": 5, "InitialHeight": 4, "MaxBlocks": 5, "GraphBlocks": 4},
+               {"Scenario": 2, "Checkpoint": 1000, "InitialHeight": 1, "MaxBlocks": 4, "GraphBlocks": 3}],
+        store_sim=150, random_types=2000, extreme=3000, random_store=600)
 
 
 def _case_of(cs):
@@ -160,7 +163,7 @@ def _nontrivial(rows, acc):
                 acc.add(hashlib.sha1(key.encode()).hexdigest())
         if ev == "Prune":
             continue
-        pre = post
+        pre = r.get("cur", post)
 
 
 def run(ctx):
@@ -176,10 +179,12 @@ def run(ctx):
     # ---- 1. design spec, exhaustive; 2. non-vacuity ------------------------------------------
     # all TLC jobs go through one pool (3 at a time, <= 8 TLC workers in total)
     tpool = ThreadPoolExecutor(max_workers=3)
-    cfg_u = core.cfg_variant(ctx, "C08_update.cfg", "C08_update_run.cfg", T["update"])
-    dump_u = os.path.join(ctx.work, "c08-update")
-    f_u = tpool.submit(ctx.tlc, "C08_update", cfg_u, dump=[dump_u], must_pass=True, timeout=1500, workers=4,
-                       label="update_cases")
+    f_u = []
+    for k, uc in enumerate(T["update"]):
+        cfg_u = core.cfg_variant(ctx, "C08_update.cfg", "C08_update_run%d.cfg" % k, uc)
+        dump_u = os.path.join(ctx.work, "c08-update%d" % k)
+        f_u.append((dump_u, tpool.submit(ctx.tlc, "C08_update", cfg_u, dump=[dump_u], must_pass=True, timeout=2400,
+                                         workers=4, label="update_cases%d" % k)))
     cfg_r = core.cfg_variant(ctx, "C08_rotate.cfg", "C08_rotate_run.cfg", T["rotate"])
     dump_r = os.path.join(ctx.work, "c08-rotate")
     f_r = tpool.submit(ctx.tlc, "C08_rotate", cfg_r, dump=[dump_r], must_pass=True, timeout=1500, workers=2,
@@ -189,9 +194,10 @@ def run(ctx):
         """exhaustive run (invariants on) of the act-augmented graph, dumped for replay; the thorough tier adds a
         deeper run with VIEW (no dump) and simulated behaviours"""
         runs, scheds = [], []
+        sc = dict(sc)
+        gb = sc.pop("GraphBlocks", sc["MaxBlocks"])
         gen = [{"a": a, "p": p} for a, p in GENESIS[sc["Scenario"]]]
-        cfg_g = core.cfg_variant(ctx, "C08_store.cfg", "C08_store_graph%d.cfg" % k,
-                                 dict(sc, MaxBlocks=min(sc["MaxBlocks"], 5)), drop_view=True)
+        cfg_g = core.cfg_variant(ctx, "C08_store.cfg", "C08_store_graph%d.cfg" % k, dict(sc, MaxBlocks=gb), drop_view=True)
         dot = os.path.join(ctx.work, "c08-store%d.dot" % k)
         rg = ctx.tlc("C08_store", cfg_g, dump=["dot,actionlabels", dot], must_pass=True, timeout=1500, workers=2,
                      label="store_graph_s%d" % k)
@@ -201,7 +207,7 @@ def run(ctx):
         for nodes in core.graph_schedules(g):
             acts = [to_json(g.nodes[n]["act"]) for n in nodes]
             scheds.append(_store_sched(acts, gen, sc["InitialHeight"], sc["Checkpoint"]))
-        if sc["MaxBlocks"] > 5:
+        if sc["MaxBlocks"] > gb:
             cfg_s = core.cfg_variant(ctx, "C08_store.cfg", "C08_store_run%d.cfg" % k, sc)
             runs.append(ctx.tlc("C08_store", cfg_s, must_pass=True, timeout=1500, workers=3, label="store_deep_s%d" % k))
         if T["store_sim"]:
@@ -265,10 +271,20 @@ def run(ctx):
 
     f_weak = [tpool.submit(weak, w) for w in WEAK]
 
-    r_u, r_r = f_u.result(), f_r.result()
-    cases = [_case_of(s["cs"]) for s in core.read_state_dump(dump_u + ".dump") if to_json(s["cs"])["stage"] == 1]
-    rot_cases = [_case_of(s["cs"]) for s in core.read_state_dump(dump_r + ".dump")]
-    os.remove(dump_u + ".dump")
+    r_r = f_r.result()
+    r_us, cases, seen = [], [], set()
+    for dump_u, f in f_u:
+        r_us.append(f.result())
+        for st in core.read_state_dump(dump_u + ".dump"):
+            if to_json(st["cs"])["stage"] == 1:
+                c = _case_of(st["cs"])
+                key = json.dumps(c, sort_keys=True)
+                if key not in seen:
+                    seen.add(key)
+                    cases.append(c)
+        os.remove(dump_u + ".dump")
+    del seen
+    rot_cases = [_case_of(st["cs"]) for st in core.read_state_dump(dump_r + ".dump")]
     os.remove(dump_r + ".dump")
     if not cases or not rot_cases:
         raise Undecided("no cases exported by TLC")
@@ -297,26 +313,31 @@ def run(ctx):
     vals = {}
     for name, rows, me in (("cases", rows_t["cases"], 1500), ("rotate", rows_t["rotate"], 1200),
                            ("hist", rows_t["hist"], 1500), ("extreme", rows_t["extreme"], 2000),
-                           ("store", rows_s, 400)):
+                           ("store", rows_s, 1000)):
         vals[name] = core.validate_traces(ctx, TRACE, rows, max_events=me, label=name, timeout=1500)
 
     # ---- 5. verdict ---------------------------------------------------------------------------
     verdict = core.Verdict(ctx)
-    drift, notes = [], []
+    drift, notes, prop_notes = [], [], []
     for name, v in vals.items():
         for x in v["viol"]:
             verdict.add(_sig(x), {"kind": name, "seed": ctx.seed, "tier": ctx.tier, "failing_step": _slim(x["row"]),
                                   "prefix": [_slim(r) for r in x["prefix"]],
                                   "tlc": {k: x[k] for k in ("inv", "class")}})
         for d in v["drift"]:
-            (notes if d["what"].startswith("note:") else drift).append(d)
+            if d["what"].startswith("note: a validator was more than 3 turns"):
+                prop_notes.append(d)
+            elif d["what"].startswith("note:"):
+                notes.append(d)
+            else:
+                drift.append(d)
 
     distinct = set()
     for rows in list(rows_t.values()) + [rows_s]:
         _nontrivial(rows, distinct)
     all_rows = sum(len(r) for r in rows_t.values()) + len(rows_s)
     lookups = sum(len(r.get("loads", [])) for r in rows_s)
-    tlc_all = [r_u, r_r] + store_runs + hist_runs
+    tlc_all = r_us + [r_r] + store_runs + hist_runs
     sample_store = [r for r in rows_s if r["ev"] == "Apply"][:1]
     coverage = {
         "states": sum(r.distinct for r in tlc_all),
@@ -324,22 +345,23 @@ def run(ctx):
         "traces_validated_against_impl": sum(v["runs"] for v in vals.values()),
         "evaluations": all_rows,
         "distinct_nontrivial": len(distinct),
-        "rule": "update cases: every (initial powers, warm-up rounds, first batch, batch) enumerated by TLC from "
-                "C08_update (constants %s), each batch executed on a real ValidatorSet in EVERY order; rotation cases "
-                "from C08_rotate (%s): 2*total+1 real single rounds plus multi-round calls; ValidatorSet object "
-                "histories: every state of the C08_hist graph (MaxSteps=2) reached on a real object%s; state store: "
-                "every state of the act-augmented C08_store graphs %s reached by replaying its BFS path through the "
-                "real updateState/Save/PruneStates with heights placed around the real checkpoint interval 100000, "
-                "LoadValidators called for every retained height after every step%s; plus %d random ValidatorSet "
-                "histories, %d extreme-power histories (limb arithmetic) and %d random store histories seeded by "
-                "VERIF_SEED; a step is distinct by (pre-state, call, arguments) and counted when it changed the object"
-                % (json.dumps(T["update"]), json.dumps(T["rotate"]), json.dumps(T["hist_graph"]),
-                   " plus %d simulated behaviours" % T["hist_sim"] if T["hist_sim"] else "",
-                   json.dumps(T["store"]), " plus %d simulated store behaviours per scenario" % T["store_sim"]
-                   if T["store_sim"] else "", T["random_types"], T["extreme"], T["random_store"]),
+        "rule": " ".join([
+            "update cases: every (initial powers, warm-up rounds, first batch, batch) enumerated by TLC from C08_update",
+            "(constants %s), each batch executed on a real ValidatorSet in EVERY order;" % json.dumps(T["update"]),
+            "rotation cases from C08_rotate (%s): 2*total+1 real single rounds plus multi-round calls;" % json.dumps(T["rotate"]),
+            "ValidatorSet object histories: every state of the C08_hist graph (%s) reached on a real object" % json.dumps(T["hist_graph"]),
+            "plus %d simulated behaviours;" % T["hist_sim"],
+            "state store: every state of the act-augmented C08_store graphs %s reached by replaying its BFS path" % json.dumps(T["store"]),
+            "through the real updateState/Save/PruneStates with heights placed around the real checkpoint interval 100000,",
+            "LoadValidators called for every retained height after every step, plus %d simulated store behaviours per scenario;" % T["store_sim"],
+            "plus %d random ValidatorSet histories, %d extreme-power histories (limb arithmetic) and %d random store histories" % (
+                T["random_types"], T["extreme"], T["random_store"]),
+            "seeded by VERIF_SEED; a step is distinct by (pre-state, call, arguments) and counted when it changed the object"]),
         "samples": [core.abridge([_slim(r) for r in rows_t["cases"][:4]], 4),
                     core.abridge([{k: v for k, v in r.items() if k != "db"} for r in sample_store], 2)],
-        "exhaustive": True,
+        "exhaustive": quick,
+        "exhaustive_note": "every enumerated case and every state of the replayed graphs was executed on real code; the "
+                           "thorough tier additionally runs deeper TLC configs and simulations that are not fully replayed",
         "tlc_runs": ctx.tlc_stats,
         "update_cases": len(cases),
         "rotation_cases": len(rot_cases),
@@ -360,6 +382,13 @@ def run(ctx):
                         "different jumps can disagree on its proposer shortly after a validator-set change. Not "
                         "claimed under the C08 statement; recorded.",
                 "sample": [_slim(n["row"]) for n in notes[:1]],
+            },
+            "proportional_share_off_by_more_than_3_turns": {
+                "count": len(prop_notes),
+                "what": "number of observed rotation windows in which some validator's turn count differed from "
+                        "rounds*power/total by more than 3 (empirical bound, checked by TLC on the model; not a verdict - "
+                        "RotationExact pins every observed rotation to the reference, Fair is exact for sets whose "
+                        "priorities come from rotation alone)",
             }},
         "nonvacuity": {sw: "refuted by TLC (%s)" % inv for sw, inv in weak_results.items()},
         "known_findings_reproduced": dict(verdict.known),
@@ -374,8 +403,9 @@ def run(ctx):
         "(one IncrementProposerPriority(1) per block); the code as found is the switch Weak_LoadSingleIncrement",
         "the model's checkpoint interval is 3..5; the real interval 100000 is exercised through chains whose "
         "InitialHeight lies just below it",
-        "Fair (exactly power(v) turns in every window of `total` rounds) is stated for sets whose priorities come "
-        "from rotation alone; after an update the bound is 3 turns (Proportional)",
+        "Fair (exactly power(v) turns in every window of `total` rounds) is judged for sets whose priorities come "
+        "from rotation alone; after an update the rotation is pinned to the reference round-robin (RotationExact) and "
+        "the 3-turn proportionality bound is only counted, not judged",
         "a TLC verdict is accepted only if the verdict file covers every trace line",
     ], len(verdict.new))
     bpool.shutdown()
